@@ -76,7 +76,7 @@ _names = st.sampled_from([None, None, "myname", "with 'quote'", "K7", "@cls1", "
 
 @st.composite
 def _case(draw):
-    cls = draw(st.sampled_from(["Plain", "Plain", "Pos", "PosNoKw", "TwoPos"]))
+    cls = draw(st.sampled_from(["Plain", "Plain", "Pos", "PosNoKw", "TwoPos", "KwOnly", "KwOnly2"]))
     state = {}
     if cls == "Plain":
         opt = {"num": _num, "i": _int, "s": _str, "b": st.booleans().map(lambda v: ["b", v]),
@@ -99,6 +99,10 @@ def _case(draw):
     elif cls == "Pos":
         state = draw(st.fixed_dictionaries({"num": st.one_of(_num, _num, st.just(["n"]))}, optional={
             "s": st.one_of(_str, st.sampled_from([["s", "kwdefault"], ["s", "pdefault"], ["n"]])), "i": _int, "anyv": _lit()}))
+    elif cls == "KwOnly":
+        state = draw(st.fixed_dictionaries({"s": _str}, optional={"num": st.one_of(_num, st.just(["f", "1.0"])), "i": _int}))
+    elif cls == "KwOnly2":
+        state = draw(st.fixed_dictionaries({}, optional={"num": st.one_of(_num, st.just(["f", "1.0"])), "s": _str}))
     elif cls == "PosNoKw":
         state = draw(st.fixed_dictionaries({"num": _num}, optional={"i": st.one_of(_int, st.sampled_from([["i", 7], ["i", 2]]))}))
     else:
@@ -109,7 +113,9 @@ def _case(draw):
     return {"cls": cls, "state": state, "name": name, "prelude": draw(st.sampled_from([None, None, "twin"])),
             # the object explicitly holds the values that are the class defaults now; afterwards (per-instance Parameter objects
             # exist) the class defaults are changed: the state to reproduce is the object's, not the new defaults
-            "history": draw(st.sampled_from([None, None, None, "class_defaults_changed_afterwards"]))}
+            "history": draw(st.sampled_from([None, None, None, "class_defaults_changed_afterwards"])),
+            # the same object is being printed by another thread (held half-way by the harness) while it is printed here
+            "overlap": draw(st.sampled_from([False, False, False, False, True]))}
 
 
 def strategy(tier):
@@ -207,6 +213,8 @@ _TWIN_SIG = {
     "Pos": ("s, num=1.5, **params", "num, s, **params", "'tw'"),
     "PosNoKw": ("i, num=1.5", "num, i", "3"),
     "TwoPos": ("s, anyv, i=2, **params", "anyv, s, i, **params", "'tw', 5"),
+    "KwOnly": ("num, s='tw', **params", "s, num=num, **params", "2.5"),
+    "KwOnly2": ("num, **params", "num=num, **params", "2.5"),
 }
 
 
@@ -264,10 +272,59 @@ def execute(case):
                 setattr(cls, pn, new)
         res.label("class_defaults_changed_after_instance_parameters_exist")
     try:
+        if case.get("overlap") and case["cls"] == "Plain" and "anyv" not in case["state"]:
+            return _print_while_another_thread_prints(case, cls, kw, marks, res)
         return _print_and_compare(case, cls, obj, marks, res)
     finally:
         for pn, old in restore.items():
             setattr(cls, pn, old)
+
+
+class _Held(list):
+    """a list whose registered printer can be held half-way by the harness (which thus owns the schedule)"""
+
+
+def _print_while_another_thread_prints(case, cls, kw, marks, res):
+    import threading
+    from param.parameterized import container_script_repr, script_repr_reg
+    entered, release = threading.Event(), threading.Event()
+
+    def held_repr(value, imports, prefix, settings):
+        if threading.current_thread().name == "c20-A":
+            entered.set()
+            release.wait(20)
+        return "_Held(%s)" % container_script_repr(list(value), imports, prefix, settings)
+    script_repr_reg[_Held] = held_repr
+    obj = cls(**dict(kw, anyv=_Held([1, 2])))
+    out = {}
+    a = threading.Thread(target=lambda: out.__setitem__("A", obj.param.pprint()), name="c20-A")
+    a.start()
+    try:
+        if not entered.wait(20):
+            res.fail("C20.harness", "the other thread never reached the held printer")
+            return res
+        out["main"] = obj.param.pprint()
+    finally:
+        release.set()
+        a.join(20)
+        script_repr_reg.pop(_Held, None)
+    res.label("printed_while_another_thread_prints_the_same_object")
+    ns = dict(ms.C20_CLASSES)
+    ns["param"] = param
+    ns["_Held"] = _Held
+    for who in ("main", "A"):
+        text = out.get(who)
+        try:
+            rebuilt = eval(text, dict(ns))     # noqa: S307
+        except Exception as e:  # noqa: BLE001
+            res.fail("C20.pprint_not_evaluable", f"[thread {who}] eval of {text!r} raised {type(e).__name__}: {e}")
+            continue
+        diffs = []
+        _same(obj, rebuilt, "obj", diffs)
+        if diffs:
+            res.fail("C20.pprint_rebuilds_different", f"[thread {who}] text {text!r}: " + "; ".join(diffs[:4]))
+    res.nontrivial = True
+    return res
 
 
 def _print_and_compare(case, cls, obj, marks, res):
